@@ -3,8 +3,13 @@
 package net
 
 import (
+	"crypto/tls"
+	"io"
 	"net"
 	"net/http"
+	"time"
+
+	libnet "github.com/fatedier/golib/net"
 
 	"github.com/fatedier/frp/verif"
 )
@@ -98,3 +103,52 @@ func verif_HTTPAuthMiddleware_handler(w http.ResponseWriter, r *http.Request) {
 
 //verif:guarded FakeUDPConn mu closeFlag lastActive
 //verif:sweep-type FakeUDPConn props=C16 kinds=lock
+
+// ---------------------------------------------------------------- C05: the server's first-byte TLS sniff
+
+// CheckAndEnableTLSServerConnWithTimeout: "when the server forces TLS ... a
+// peer without TLS ... cannot get any protocol message interpreted": with
+// tlsOnly set, a first byte that is neither the frp TLS marker (0x17) nor a
+// TLS handshake record (0x16) yields an error and no connection; a TLS first
+// byte yields a TLS server connection built with the server's TLS
+// configuration - over the original connection when the marker byte was
+// consumed, over the replaying connection when the byte belongs to the
+// handshake; a plaintext connection is handed on (replaying the sniffed byte)
+// only when TLS is not forced. The sniff itself runs under the read deadline.
+//
+//verif:contract ~/pkg/util/net.CheckAndEnableTLSServerConnWithTimeout
+//verif:props C05 C01
+func verif_CheckAndEnableTLSServerConnWithTimeout(c net.Conn, tlsConfig *tls.Config, tlsOnly bool, timeout time.Duration) {
+	verif.ResetEvents()
+	out, isTLS, custom, err := CheckAndEnableTLSServerConnWithTimeout(c, tlsConfig, tlsOnly, timeout)
+	verif.Ensures(verif.CalledBefore("Conn).SetReadDeadline", "SharedConn).Read") || verif.CalledBefore("Conn).SetReadDeadline", ").Read"), "sniff_under_deadline")
+	if err == nil {
+		verif.Ensures(out != nil, "connection_or_error")
+		if isTLS {
+			verif.Ensures(verif.Called("crypto/tls.Server") && verif.CalledWith("crypto/tls.Server", 1, tlsConfig) && verif.Same(any(out), any(verif.Ret[*tls.Conn]("crypto/tls.Server", 0))), "tls_connection_with_the_servers_configuration")
+			if custom {
+				verif.Ensures(verif.Same(verif.NthArg[any]("crypto/tls.Server", 0, 0), any(c)), "marker_byte_consumed_tls_on_the_raw_connection")
+			} else {
+				verif.Ensures(verif.Same(verif.NthArg[any]("crypto/tls.Server", 0, 0), any(verif.Ret[*libnet.SharedConn]("golib/net.NewSharedConnSize", 0))), "handshake_byte_replayed_to_tls")
+			}
+		} else {
+			verif.Ensures(!tlsOnly, "plaintext_only_when_tls_is_not_forced")
+			verif.Ensures(!verif.Called("crypto/tls.Server") && verif.Same(any(out), any(verif.Ret[*libnet.SharedConn]("golib/net.NewSharedConnSize", 0))), "plaintext_connection_replays_the_sniffed_byte")
+		}
+	} else {
+		verif.Ensures(out == nil && !isTLS, "no_connection_on_error")
+	}
+}
+
+// NewCryptoReadWriter: both directions go through the cipher of the dependency
+// golib/crypto, keyed by the given key, around the given stream.
+//
+//verif:contract ~/pkg/util/net.NewCryptoReadWriter
+//verif:props C05
+func verif_NewCryptoReadWriter(rw io.ReadWriter, key []byte) {
+	verif.ResetEvents()
+	out, err := NewCryptoReadWriter(rw, key)
+	verif.Ensures((err == nil) == (out != nil), "stream_or_error")
+	verif.Ensures(verif.CalledWith("golib/crypto.NewReader", 1, key) && verif.Same(verif.NthArg[any]("golib/crypto.NewReader", 0, 0), any(rw)), "reads_decrypted_with_the_key")
+	verif.Ensures(verif.CalledWith("golib/crypto.NewWriter", 1, key) && verif.Same(verif.NthArg[any]("golib/crypto.NewWriter", 0, 0), any(rw)), "writes_encrypted_with_the_key")
+}
